@@ -48,6 +48,13 @@ def _root():
         shutil.rmtree(RUN_ROOT, ignore_errors=True)
         os.makedirs(RUN_ROOT)
         atexit.register(lambda: shutil.rmtree(RUN_ROOT, ignore_errors=True))
+        # leftovers of runs that were killed (their process is gone)
+        import glob
+        for d in glob.glob('/var/tmp/C20run-*'):
+            pid = d.rsplit('-', 1)[1]
+            if pid.isdigit() and not os.path.exists('/proc/' + pid): shutil.rmtree(d, ignore_errors=True)
+        # warm up tempfile (lazy initialisation of its name generator) so that descriptor counts are stable
+        fd, name = tempfile.mkstemp(dir=RUN_ROOT); os.close(fd); os.unlink(name)
     return RUN_ROOT
 
 def _fu():
@@ -245,7 +252,9 @@ def gen_cases(rng, tier):
 
 class _RecHash:
     def __init__(self, h, log): self.h, self.log = h, log
-    def update(self, d): self.log.append(len(d)); self.data.append(bytes(d)); return self.h.update(d)
+    def update(self, d):
+        if len(self.log) > 10 ** 6: raise _Timeout()             # a loop that never ends
+        self.log.append(len(d)); self.data.append(bytes(d)); return self.h.update(d)
     def hexdigest(self, *a): return self.h.hexdigest(*a)
 class _RecHashlib:
     """stands in for the `hashlib` name inside fileutils: records what is fed to the hash object"""
@@ -264,7 +273,27 @@ def _target_path(base, c):
 def _file_world(c):
     return [['F', 'f', c['content']]]
 
+class _Timeout(BaseException):
+    pass
+_timeouts = {}
+
 def impl(c):
+    """run the case under a time limit: the read loop of the model terminates (theorem C20_read_loop), so must the real one"""
+    import signal
+    if _timeouts.get(c['op'], 0) >= 3: return 'TIMEOUT'          # do not wait again and again for the same helper
+    def on_alarm(sig, frm): raise _Timeout()
+    old = signal.signal(signal.SIGALRM, on_alarm)
+    signal.setitimer(signal.ITIMER_REAL, 300.0 if c['op'] == 'write_big' else 10.0)
+    try:
+        return _impl(c)
+    except _Timeout:
+        _timeouts[c['op']] = _timeouts.get(c['op'], 0) + 1
+        return 'TIMEOUT'
+    finally:
+        signal.setitimer(signal.ITIMER_REAL, 0)
+        signal.signal(signal.SIGALRM, old)
+
+def _impl(c):
     fu = _fu()
     op = c['op']
     base = os.path.join(_root(), 'c%d' % next(_counter))
@@ -320,6 +349,17 @@ def impl(c):
             finally:
                 tempfile.tempdir = saved
             return '%s %s' % (r, fmt_world(dump_world(base), nfds() - n0))
+        if op == 'write_big':
+            # content larger than one write(2) transfers; only the sizes are reported (zeros, no dump)
+            os.makedirs(os.path.join(base, 'd'))
+            data = bytes(c['size'])
+            try:
+                p = fu.write_to_tempfile(data, path=os.path.join(base, 'd'))
+                return 'OK:stored=%d of %d' % (os.path.getsize(p), len(data))
+            except Exception as e:
+                return canon_exc(e)
+            finally:
+                del data
         if op == 'checksum':
             mk_world(base, _file_world(c))
             p = _target_path(base, c)
@@ -444,11 +484,16 @@ def _parse_world(s):
 def oracle(c, io):
     op = c['op']
     if io.startswith('HARNESS-ERROR'): return io
+    if io == 'TIMEOUT': return '%s did not terminate within 10 s' % op
     if op == 'checksum':
         content = content_of(c['content'])
-        ch = 65536 if c['chunk'] is None else c['chunk']       # documented default (docstring: "Default is 65536 bytes or 64KB")
-        alg = 'sha256' if c['alg'] is None else c['alg']       # documented default
-        if c.get('target', 'file') != 'file' or not (ch >= 1 or ch == -1): return None     # outside the property's domain
+        import inspect
+        dflt = inspect.signature(_fu().compute_file_checksum).parameters
+        ch = dflt['read_chunksize'].default if c['chunk'] is None else c['chunk']    # whatever the helper declares as its defaults
+        alg = dflt['algorithm'].default if c['alg'] is None else c['alg']
+        if c.get('target', 'file') != 'file': return None                                   # outside the property's domain
+        if c['chunk'] is not None and not (ch >= 1 or ch == -1): return None                # explicit degenerate chunk sizes: idem
+        if not isinstance(ch, int) or not isinstance(alg, str): return 'defaults of compute_file_checksum: %r, %r' % (ch, alg)
         try:
             want = 'OK ' + hashlib.new(alg, content).hexdigest()
         except Exception as e:
@@ -511,6 +556,8 @@ def oracle(c, io):
         else:
             if after != before and op == 'delete_if_exists': return 'failed delete_if_exists(%r) changed the tree' % p
         return None
+    if op == 'write_big':
+        return None if io == 'OK:stored=%d of %d' % (c['size'], c['size']) else 'write_to_tempfile of %d bytes: %s' % (c['size'], io)
     if op == 'write_to_tempfile':
         head, after, rest = _parse_world(io)
         before = {p: (k, content_of(cd).hex() if k == 'F' else '') for p, (k, cd) in world_entries(c).items()}
@@ -540,6 +587,13 @@ def oracle(c, io):
             if q not in before and q != newp and not (after[q][0] == 'D' and (dirn == q or dirn.startswith(q + '/'))):
                 return 'write_to_tempfile created %r' % q
         return None
+    return None
+
+MAX_RW_COUNT = 0x7ffff000
+def zone(c):
+    """known finding W1: the content does not fit one write(2) (decidable on the input)"""
+    if c.get('op') == 'write_big' and c['size'] > MAX_RW_COUNT: return 'W1'
+    if c.get('op') == 'write_to_tempfile' and c['content'].get('size', 0) > MAX_RW_COUNT: return 'W1'
     return None
 
 def classify(c, io):
